@@ -10,7 +10,7 @@ CLAIMED = {
           "three generated maps (ASTNodes, RuleASTNodes, internal Constraints through an overlay package) and the extracted model on every mutator "
           "sequence up to length 3 (quick) / 5 (thorough) over 3 keys x 2 predicates followed by all observers, plus random histories to length 200, "
           "and a -race stress run. Omap/OmapLaws.v spells the order discipline out law by law on the same model (C19_new_key_goes_last, "
-          "C19_existing_key_keeps_place, C19_delete_then_set_moves_last, C19_get_after_set, C19_get_after_delete, C19_filter_twice, C19_update_keeps_keys, C19_map_keeps_keys, and C19_order_stable_set/_update/_delete/_filter: two live keys never swap places, C19_before_strict), each from any state "
+          "C19_existing_key_keeps_place, C19_delete_then_set_moves_last, C19_get_after_set, C19_get_after_delete, C19_filter_twice, C19_update_keeps_keys, C19_map_keeps_keys, and C19_order_stable_set/_update/_delete/_filter: two live keys never swap places, C19_before_strict, C19_before_trans), each from any state "
           "satisfying the invariant; C19_iteration_is_birth_order (Omap/OmapBirth.v) states the order for whole histories: stamp each step with its index, "
           "remember per key the index of the Set that inserted it while absent - after ANY history the iterated keys are strictly sorted by that stamp, and the stamp of a live key is the position of a Set of that key in the history (C19_births_are_sets).",
   "note": "Trusted: Coq kernel; tabx's reading of the lock prologue; extraction (ExtrOcamlBasic) and modelrun; the Go harness adapters (int<->ASTNode projection); "
